@@ -195,6 +195,41 @@ fn check_neighbors(c: &RtCase, ctx: &mut Ctx) -> Result<(), Fail> {
     let w = if c.param > 0.5 { KNNWeightFunction::Distance } else { KNNWeightFunction::Uniform };
     let rows: Vec<Vec<f64>> = c.x.rows();
     let qrows: Vec<Vec<f64>> = c.q.rows();
+    // "does not equal a model fitted on different rows and targets", tested on a minimally different model as
+    // well: same shape, one feature value of one row and the target of that row changed (class set unchanged).
+    // The changed position is generated (any row, not only the first or the last). Note that the library's
+    // k-NN equality looks at k, the classes and the stored targets only, so a difference in the rows alone is
+    // not required to be detected (the property speaks of different rows AND targets).
+    if c.which <= 3 {
+        let n = c.x.r;
+        let pos = ((c.param * 7919.0) as usize) % n;
+        let mut x_alt = c.x.clone();
+        x_alt.set(pos, 0, x_alt.at(pos, 0) + 1.0);
+        let xa = dm(&x_alt);
+        if c.which <= 1 {
+            let mut y_alt = c.y_cls.clone();
+            // switch row `pos` to another class that occurs, provided its own class keeps another member
+            let others = c.y_cls.iter().filter(|v| **v == c.y_cls[pos]).count();
+            if let Some(alt) = c.y_cls.iter().find(|v| **v != c.y_cls[pos]) {
+                if others >= 2 {
+                    y_alt[pos] = *alt;
+                }
+            }
+            let p = || KNNClassifierParameters::default().with_algorithm(alg.clone()).with_weight(w.clone());
+            if y_alt != c.y_cls {
+                if let (Ok(a), Ok(b)) = (KNNClassifier::fit(&x, &c.y_cls, p()), KNNClassifier::fit(&xa, &y_alt, p())) {
+                    ensure!(!(a == b) && !(b == a), "knn_classifier/equal-to-minimally-different-model", "models fitted on data differing in row {} (one feature value and the target) compare equal", pos);
+                }
+            }
+        } else {
+            let mut y_alt = c.y_reg.clone();
+            y_alt[pos] += 1.0;
+            let p = || KNNRegressorParameters::default().with_algorithm(alg.clone()).with_weight(w.clone());
+            if let (Ok(a), Ok(b)) = (KNNRegressor::fit(&x, &c.y_reg, p()), KNNRegressor::fit(&xa, &y_alt, p())) {
+                ensure!(!(a == b) && !(b == a), "knn_regressor/equal-to-minimally-different-model", "models fitted on data differing in row {} (one feature value and the target) compare equal", pos);
+            }
+        }
+    }
     match c.which {
         0 | 1 => model!(ctx, if c.which == 0 { "knn_classifier/cover_tree" } else { "knn_classifier/linear" }, KNNClassifier::fit(&x, &c.y_cls, KNNClassifierParameters::default().with_algorithm(alg.clone()).with_weight(w.clone())), KNNClassifier::fit(&x2, &c.y2_cls, KNNClassifierParameters::default().with_algorithm(alg.clone())), |m: &KNNClassifier<f64, _>| pv(m.predict(&q))),
         2 | 3 => model!(ctx, if c.which == 2 { "knn_regressor/cover_tree" } else { "knn_regressor/linear" }, KNNRegressor::fit(&x, &c.y_reg, KNNRegressorParameters::default().with_algorithm(alg.clone()).with_weight(w.clone())), KNNRegressor::fit(&x2, &c.y2_reg, KNNRegressorParameters::default().with_algorithm(alg.clone())), |m: &KNNRegressor<f64, _>| pv(m.predict(&q))),
